@@ -153,3 +153,24 @@ package types
 //@     len(ParseUid(s).String()) == len(s) && (forall i int :: 0 <= i && i < 11 ==> ParseUid(s).String()[i] == s[i])
 //@ lemma [C20] userid_roundtrip: forall u Uid :: u != 0 ==> ParseUserId(u.UserId()) == u
 //@ lemma [C20] userid_needs_prefix: forall s string :: !(len(s) >= 3 && s[0] == 'u' && s[1] == 's' && s[2] == 'r') ==> ParseUserId(s) == ZeroUid
+
+// same bytes (string equality spelled out, the engine has no extensionality for computed strings)
+//@ spec func sameText(a string, b string) bool { return len(a) == len(b) && forall i int :: 0 <= i && i < len(a) ==> a[i] == b[i] }
+
+// peer-to-peer topic names
+//@ lemma [C20] p2p_symmetric: forall a Uid, b Uid :: sameText(a.P2PName(b), b.P2PName(a))
+//@ lemma [C20] p2p_empty: forall a Uid, b Uid :: (len(a.P2PName(b)) == 0) <==> (a == 0 || b == 0 || a == b)
+//@ lemma [C20] p2p_roundtrip: forall a Uid, b Uid :: a != 0 && b != 0 && a < b ==>
+//@     ParseP2P(a.P2PName(b)).r2 == nil && ParseP2P(a.P2PName(b)).r0 == a && ParseP2P(a.P2PName(b)).r1 == b
+//@ lemma [C20] p2p_injective: forall a Uid, b Uid, c Uid, d Uid :: a != 0 && a < b && c != 0 && c < d && a.P2PName(b) == c.P2PName(d) ==> a == c && b == d
+//@ lemma [C20] p2p_other_user_lo: forall a Uid, b Uid :: a != 0 && a < b ==>
+//@     P2PNameForUser(a, a.P2PName(b)).r1 == nil && sameText(P2PNameForUser(a, a.P2PName(b)).r0, b.UserId())
+//@ lemma [C20] p2p_other_user_hi: forall a Uid, b Uid :: b != 0 && b < a ==>
+//@     P2PNameForUser(a, a.P2PName(b)).r1 == nil && sameText(P2PNameForUser(a, a.P2PName(b)).r0, b.UserId())
+//@ lemma [C20] p2p_bad_name: forall s string :: ParseP2P(s).r2 == nil ==> len(s) == 25 && s[0] == 'p' && s[1] == '2' && s[2] == 'p'
+
+// group <-> channel spelling
+//@ lemma [C20] grp_chn_roundtrip: forall g string :: len(g) >= 3 && g[0] == 'g' && g[1] == 'r' && g[2] == 'p' ==> sameText(ChnToGrp(GrpToChn(g)), g)
+//@ lemma [C20] chn_grp_roundtrip: forall c string :: len(c) >= 3 && c[0] == 'c' && c[1] == 'h' && c[2] == 'n' ==> sameText(GrpToChn(ChnToGrp(c)), c)
+//@ lemma [C20] chn_is_channel: forall g string :: len(g) >= 3 && g[0] == 'g' && g[1] == 'r' && g[2] == 'p' ==> IsChannel(GrpToChn(g)) && !IsChannel(g)
+//@ lemma [C20] grp_chn_other: forall s string :: !(len(s) >= 3 && ((s[0] == 'g' && s[1] == 'r' && s[2] == 'p') || (s[0] == 'c' && s[1] == 'h' && s[2] == 'n'))) ==> len(GrpToChn(s)) == 0 && len(ChnToGrp(s)) == 0
